@@ -127,7 +127,7 @@ Qed.
 Lemma exec_drop_rows d t d3 :
   exec_db false d (SDropTable t) = Ok d3 -> db_rows d3 = drop_rows t (db_rows d).
 Proof.
-  unfold exec_db. cbn [exec]. destruct (has_ctable t (db_cat d)); [|discriminate].
+  unfold exec_db. cbn [exec andb]. destruct (has_ctable t (db_cat d)); [|discriminate].
   intro H. injection H as <-. reflexivity.
 Qed.
 
